@@ -78,3 +78,32 @@ func devCommitTrace(args []string) {
 		fmt.Println(v, k)
 	}
 }
+
+// devEnum: runs the C28 enumeration in-process and prints violations of all properties (development aid).
+func devEnum() {
+	seen := map[string]int{}
+	for _, it := range corpus() {
+		it := it
+		base := it.baseWorld()
+		for _, engine := range []string{"interp", "vm"} {
+			if it.API == "readstored" && engine != "interp" {
+				continue
+			}
+			_, clean := it.execItem(base, engine, nil)
+			for k := range clean.Trace {
+				for _, mode := range []string{"error", "panic"} {
+					for _, v := range runFaulted(&it, base, engine, []FaultSpec{{Site: "*", Nth: k, Mode: mode}}, NewRunStats()) {
+						key := v.Property + "/" + v.Oracle + "/" + v.Key + "/" + it.Name
+						if seen[key] == 0 {
+							fmt.Println(clip(v.String(), 700))
+						}
+						seen[key]++
+					}
+				}
+			}
+		}
+	}
+	for k, n := range seen {
+		fmt.Println(n, k)
+	}
+}
